@@ -30,7 +30,7 @@ A_MENU = {
         (-3.0, 0.5, 2.0)],
     4: [(0.0, -1.0, math.log(2), -3.0), (0.0, 0.0, -1.0, -1.0), (5.0, -math.inf, 4.0, 4.5), (-30.0, 0.0, -0.5, -1e3)],
 }
-BETAS = [(0.0, 0.3), (0.3, 1.0), (0.0, 1.0), (0.5, 0.5), (0.25, 0.75)]
+BETAS = [(0.0, 0.3), (0.3, 1.0), (0.0, 1.0), (0.5, 0.5), (0.25, 0.75), (0.75, 0.25), (1.0, 0.0)]  # the last two are cooling moves
 
 
 def build(a, ns, dt, beta):
